@@ -49,7 +49,7 @@ Quantified over: {quant}
 2. demo.py      - a small self-contained program (run through wtpy) that exits 0 printing "ok" on the unmodified tree and fails (assertion / non-zero exit) with your change, demonstrating the property violation.  It must behave like that in every implementation mode your change affects; say which (PURE_PYTHON=0, =1 or both).
 3. meta.json    - {{"property": "{pid}", "variant": "{var}", "summary": "...what you changed and why it is wrong...", "needs": "...what exactly is needed for it to manifest...", "implementations_affected": "c|py|both", "how_to_run": "...", "ran": ["...what you ran and what it printed..."]}}
 
-Before you finish: verify yourself that (a) wttest with the change gives the baseline line in both modes, (b) demo.py fails with the change and prints ok without it (git stash / git checkout to compare; rebuild with wtbuild when the .c file changed), (c) patch.diff applies to a clean tree.  Then leave the worktree CLEAN (git -C {wt} checkout -- . ; remove untracked files you created there).  Reply with a three-line summary only.
+Before you finish: verify yourself that (a) wttest with the change gives the baseline line in both modes, (b) demo.py fails with the change and prints ok without it (to compare, save your change with `git diff > /tmp/seed/{sid}/patch.diff`, `git checkout -- .`, and later `git apply` it again - never use `git stash`: the stash is shared with other worktrees of this repository; rebuild with wtbuild when the .c file changed), (c) patch.diff applies to a clean tree.  Then leave the worktree CLEAN (git -C {wt} checkout -- . ; remove untracked files you created there).  Reply with a three-line summary only.
 """
 
 
